@@ -13,7 +13,6 @@ mod c01_pipeline;
 mod c03_frames;
 mod c05_spans;
 mod c15_codecs;
-mod c19_capture;
 #[cfg(not(kani))]
 mod table;
 #[cfg(not(kani))]
